@@ -406,10 +406,12 @@ func ipv4AddrsDecoder(r io.Reader, val interface{}, _ *[8]byte,
 		var (
 			numAddrs = int(l / ipv4AddrEncodedSize)
 			addrs    = make([]*net.TCPAddr, 0, numAddrs)
-			ip       [4]byte
 			port     [2]byte
 		)
 		for len(addrs) < numAddrs {
+			// Each address needs its own backing array, as the
+			// TCPAddr below keeps a slice of it.
+			var ip [4]byte
 			_, err := r.Read(ip[:])
 			if err != nil {
 				return err
@@ -486,10 +488,12 @@ func ipv6AddrsDecoder(r io.Reader, val interface{}, _ *[8]byte,
 		var (
 			numAddrs = int(l / ipv6AddrEncodedSize)
 			addrs    = make([]*net.TCPAddr, 0, numAddrs)
-			ip       [16]byte
 			port     [2]byte
 		)
 		for len(addrs) < numAddrs {
+			// Each address needs its own backing array, as the
+			// TCPAddr below keeps a slice of it.
+			var ip [16]byte
 			_, err := r.Read(ip[:])
 			if err != nil {
 				return err
